@@ -574,6 +574,7 @@ func renderRun(c *Case, r *Run, ctx map[string]interface{}) (o obs) {
 			foreignTp[engineName(n)] = true
 		}
 		var other *twig.Engine
+		var compiledBytes [][]byte
 		for name, src := range srcs {
 			if foreignTp[name] {
 				if other == nil {
@@ -590,6 +591,8 @@ func renderRun(c *Case, r *Run, ctx map[string]interface{}) (o obs) {
 				continue
 			}
 			if r.Via == "compiled" {
+				// (phase 1: every template is compiled and serialised; phase 2, below the loop: the bytes are loaded -- so
+				// that bytes handed out earlier have to survive later serialisations)
 				if other == nil {
 					other = twig.New()
 					registerSpies(other, st)
@@ -609,14 +612,12 @@ func renderRun(c *Case, r *Run, ctx map[string]interface{}) (o obs) {
 				if err == nil {
 					data, err = twig.SerializeCompiledTemplate(ct)
 				}
-				if err == nil {
-					err = e.LoadFromCompiledData(data)
-				}
 				if err != nil {
 					o.kind = "other"
 					o.errMsg = "compiled route: " + name + ": " + err.Error()
 					return
 				}
+				compiledBytes = append(compiledBytes, data)
 				continue
 			}
 			if err := e.RegisterString(name, src); err != nil {
@@ -625,6 +626,13 @@ func renderRun(c *Case, r *Run, ctx map[string]interface{}) (o obs) {
 				if r.Probe {
 					probeEngine(e, &o)
 				}
+				return
+			}
+		}
+		for _, data := range compiledBytes {
+			if err := e.LoadFromCompiledData(data); err != nil {
+				o.kind = "other"
+				o.errMsg = "compiled route: " + err.Error()
 				return
 			}
 		}
